@@ -132,21 +132,23 @@ func addLeaf(t Tree, r *Route, s *Segment, h Handler) (Leaf, error) {
 	}
 
 	if leaf.getSegment().Optional {
+		var shortLeaf Leaf
 		parent := leaf.getParent()
 		if parent.getParent() != nil {
-			_, err = addLeaf(parent.getParent(), r, parent.getSegment(), h)
+			shortLeaf, err = addLeaf(parent.getParent(), r, parent.getSegment(), h)
 			if err != nil {
 				return nil, errors.Wrap(err, "add optional leaf to grandparent")
 			}
 		} else {
 			// The optional segment is the only segment of the route, the short form is
 			// the root path "/".
-			_, err = addLeaf(parent, r, &Segment{Pos: s.Pos, Slash: "/"}, h)
+			shortLeaf, err = addLeaf(parent, r, &Segment{Pos: s.Pos, Slash: "/"}, h)
 			if err != nil {
 				return nil, errors.Wrap(err, "add optional leaf to parent")
 			}
 			leaves = t.getLeaves() // The parent is the tree itself
 		}
+		leaf.setShortLeaf(shortLeaf)
 	}
 
 	// Determine leaf position by the priority of match styles.
